@@ -112,10 +112,9 @@ def run(chk: Check, repo: Repo) -> None:
             return []
         return None
     mr2 = engine(repo, callback_targets=cb)
-    # the isinstance assert narrows a union that the preceding payload test already implies for real telegrams
-    check_entry(chk, mr2, sd, (), label="GroupAddressDPT.set_decoded_data (runs outside the consumer's try)", reviewed={
-        "AssertionError|GroupAddressDPT.set_decoded_data|assert isinstance(telegram.destination_address, GroupAddress | InternalGroupAddress)": ("GroupValueWrite/Response telegrams are only created for group destinations (Telegram typing); the consumer receives them from CEMIHandler.telegram_received (T_Data_Group -> group address) and from the library's own senders", None),
-    })
+    # no reviewed entry: an assertion on the telegram's shape here ends the consumer for a hand-built telegram (a group
+    # value service addressed to an individual address - repaired 847eb28)
+    check_entry(chk, mr2, sd, (), label="GroupAddressDPT.set_decoded_data (runs outside the consumer's try)")
     tc = repo.func("xknx.core.telegram_queue", "TelegramQueue._telegram_consumer")
     chk.unit(tc)
     cfg = CFG(tc.node)
